@@ -46,7 +46,7 @@ def _snap(objs):
         if isinstance(o, np.ndarray):
             out.append(o.copy())
         elif isinstance(o, SpikeTrain):
-            out.append((np.array(o.spikes, dtype=float).copy(), o.t_start, o.t_end))
+            out.append((np.array(o.spikes, dtype=float).copy(), o.t_start, o.t_end, type(o.spikes).__name__))
         elif isinstance(o, (PieceWiseConstFunc,)):
             out.append((o.x.copy(), o.y.copy()))
         elif isinstance(o, PieceWiseLinFunc):
